@@ -321,8 +321,21 @@ def replay(ctx, w):
             tr.root, fn,
             lambda relp, name: (lambda r: True if r is None else r)(fpred(relp if 'FILEPATHNAME' in fn else name)),
             lambda relp, name: (lambda r: False if r is None else r)(dpred((relp + '/') if 'DIRPATHNAME' in fn else name)))
-        wm = WM.WcMatch(tr.root, w['file_pattern'], w['exclude_pattern'], wmflags(fn))
-        got = sorted(os.path.relpath(p, tr.root) for p in wm.match())
+        spelling = w.get('root_spelling', 'plain')
+        cwd0 = os.getcwd()
+        root_arg = tr.root
+        if spelling == 'trailing-sep':
+            root_arg = tr.root + '/'
+        elif spelling == 'double-sep':
+            root_arg = tr.root + '//'
+        elif spelling in ('relative', 'dot-relative'):
+            os.chdir(os.path.dirname(tr.root))
+            root_arg = os.path.basename(tr.root) if spelling == 'relative' else './' + os.path.basename(tr.root) + '/'
+        try:
+            wm = WM.WcMatch(root_arg, w['file_pattern'], w['exclude_pattern'], wmflags(fn))
+            got = sorted(os.path.relpath(os.path.abspath(p), tr.root) for p in wm.match())
+        finally:
+            os.chdir(cwd0)
         if got != sorted(exp):
             ctx.disagree('WcMatch result differs from the filtered reference walk', dict(w, now=got[:20], expected_now=sorted(exp)[:20]))
         elif wm.get_skipped() != exp_skipped:
